@@ -390,7 +390,7 @@ class LayoutGen:
         r = self.r
         k = r.choice(["one", "one", "two", "doc", "two_stmts", "decorated", "decorated_lambda", "static", "contains",
                       "contains", "default_lambda", "no_return", "lead_stmt", "lead_stmt", "lead_stmt", "lead_noop",
-                      "mlstring", "mlstring"])
+                      "mlstring", "mlstring", "under", "under", "wrapped", "wrapped"])
         a = self.argname()
         op = r.choice(OPS)
         ret = "%s.v + %%d" % a if not (op == "Where" and self.real) else "%s.v != %%d" % a
@@ -450,6 +450,23 @@ class LayoutGen:
             if r.random() < .5:
                 return [head + " return " + expr, "ab cd", '  ef""")', "r = ds.%s(g_%d)" % (op, m)]
             return [head, "    return " + expr, "ab cd", '  ef""")', "r = ds.%s(g_%d)" % (op, m)]
+        if k == "under":
+            # F51: inside brackets a continuation line may start LEFT of the `def` (here: a def under `if`, its second line at the
+            # `if`'s column): only blanks are indentation, the characters of that line are code
+            m = self.marker("def", op, [a], True, True, "def_continuation_left_of_def")
+            body = (ret % m)
+            if r.random() < .5:
+                return ["if ds is not None:", "    %s%d%sdef g_%d(%s): return (0 +" % (TAG_A, m, TAG_B, m, a), "%s)" % body,
+                        "    r = ds.%s(g_%d)" % (op, m)]
+            return ["if ds is not None:", "    %s%d%sdef g_%d(%s):" % (TAG_A, m, TAG_B, m, a), "        return (1 -", "1 + %s)" % body,
+                    "    r = ds.%s(g_%d)" % (op, m)]
+        if k == "wrapped":
+            # F53: a function under a functools.wraps decorator that changes the result: inspect finds the undecorated source, which
+            # is not the callable that is passed - only raising is right (not a documented layout)
+            m = self.marker("def", op, [a], True, False, "def_under_wraps_decorator")
+            if r.random() < .5:
+                return ["@twice", "%s%d%sdef g_%d(%s): return %s" % (TAG_A, m, TAG_B, m, a, ret % m), "r = ds.%s(g_%d)" % (op, m)]
+            return ["@twice", "%s%d%sdef g_%d(%s):" % (TAG_A, m, TAG_B, m, a), "    return %s" % (ret % m), "r = ds.%s(g_%d)" % (op, m)]
         if k == "one":
             m = self.marker("def", op, [a], True, True, "def_one_line")
             return ["%s%d%sdef g_%d(%s): return %s" % (TAG_A, m, TAG_B, m, a, ret % m), "r = ds.%s(g_%d)" % (op, m)]
@@ -588,8 +605,13 @@ def strip_tags(text: str, cases: Dict[int, Case]) -> str:
 
 
 PRELUDE = '''\
+import functools
 def ident(f): return f
 def deco(f): return ident
+def twice(f):
+    @functools.wraps(f)
+    def doubled(*a, **k): return f(*a, **k) * 2
+    return doubled
 def compare(*xs, **kw): return xs[0]
 lam = lambd = lambda_ = de = ef = define = defs = compare
 class ctx:
@@ -929,9 +951,20 @@ def stream_for(path: str, lines: List[str], first: int) -> Stream:
 
 
 def realign_indent(s: str) -> str:
+    """what util_ast._realign_indent does since F40 / F51: the first line's indentation is taken off every line - blanks only,
+    and not off the continuation lines of a multi-line string"""
+    import io
+    import tokenize
     lines = s.split("\n")
     spaces = len(lines[0]) - len(lines[0].lstrip())
-    out = [ln[spaces:] for ln in lines]
+    in_string = set()
+    try:
+        for t in tokenize.generate_tokens(io.StringIO(s).readline):
+            if t.end[0] > t.start[0] and t.type not in (tokenize.NEWLINE, tokenize.NL):
+                in_string.update(range(t.start[0], t.end[0]))
+    except (tokenize.TokenError, IndentationError):
+        pass
+    out = [ln if i in in_string else ln[min(spaces, len(ln) - len(ln.lstrip(" \t"))):] for i, ln in enumerate(lines)]
     while out and out[-1].strip() == "":
         out.pop()
     return "\n".join(out)
@@ -939,6 +972,9 @@ def realign_indent(s: str) -> str:
 
 def def_source(f) -> str:
     """inspect.getsource + ast.parse of a function: the statement kinds of its body (input `dsrc`)"""
+    if hasattr(f, "__wrapped__"):
+        # F53: decided on the live object, before any source is read: a decorated function is refused
+        return "X" + hx("ValueError")
     try:
         mod = ast.parse(realign_indent(inspect.getsource(f)))
         fd = mod.body[0]
